@@ -92,6 +92,10 @@ type replyPlan struct {
 	// LatencyMs (loop test): the call takes this long (or fails early when
 	// its context is cancelled).
 	LatencyMs int `json:"latency_ms,omitempty"`
+	// NilToCompleted (Kind "nil" only): if the request turns out to report
+	// Completed, desired_state is really left unset (a reply no scheduler in
+	// the tree sends; see Synchronize) instead of being replaced by "idle".
+	NilToCompleted bool `json:"nil_to_completed,omitempty"`
 }
 
 // ---------------------------------------------------------------------
@@ -119,6 +123,34 @@ type actionRec struct {
 
 	lastReported      int // index into emitted of the newest update reported; -1 = Started
 	completedReported bool
+
+	// Freshness / completion oracle (see availSnap).
+	sent        int       // progress updates whose channel send has completed
+	returnedAt  time.Time // clock reading when Execute returned
+	minRequired int       // every later report about this action must be at least this new (idxStarted .. idxCompleted)
+	minWhy      string
+}
+
+// Position of a reported execution state in the sequence the worker's update
+// channel carries for one action: Started (set by the worker itself), then
+// emitted[0], emitted[1], ..., then Completed.
+const (
+	idxStarted   = -1
+	idxCompleted = 1 << 30
+)
+
+// availSnap is a lower bound on what BuildClient.Run must have consumed from
+// the update channel of action a before it sends its next request: taken at
+// an instant at which Run is about to reach its select with the
+// synchronisation timer not yet expired and idx already sitting in the
+// channel buffer (a receive from a non-empty channel wins against a timer
+// that has not fired, and consumeExecutionUpdatesNonBlocking then reads until
+// the buffer is empty: "Send a new update with the latest state").
+type availSnap struct {
+	a   *actionRec
+	idx int
+	at  time.Time
+	why string
 }
 
 type execCmd struct {
@@ -183,6 +215,19 @@ type world struct {
 	refSync        time.Time  // last next_synchronization_at the worker validly received
 	shutdown       bool       // the outer context has been cancelled
 
+	// Freshness / completion oracle: what the next request must at least
+	// report (nil = nothing demanded). Consumed by checkRequest.
+	avail *availSnap
+	// A valid "no desired state" reply to a Completed report was delivered
+	// (NilToCompleted) and no valid execute/idle reply since: the one-minute
+	// branch of the may-terminate oracle is not judged (observation O1).
+	nilToCompletedTaint bool
+	// Loop test: Synchronize calls received at one bubble instant.
+	spinAt    time.Time
+	spinCount int
+	halt      chan struct{} // loop test: closed never; Synchronize parks here once a violation is recorded
+	violated  chan struct{} // loop test: closed at the first violation
+
 	// Facts about the current Run (Run test) for the return-time oracle.
 	lastReplyKind  string // kind of the last reply handed out ("" = none in this Run)
 	lastReplyValid bool
@@ -197,10 +242,19 @@ func newWorld(c clock.Clock, loop bool) *world {
 		excluded: map[string]int{},
 		refSync:  c.Now(), // NewBuildClient: nextSynchronizationAt = clock.Now()
 		arrived:  make(chan struct{}, 1<<16),
+		halt:     make(chan struct{}),
+		violated: make(chan struct{}),
 	}
 }
 
 func (w *world) violate(format string, args ...any) {
+	if len(w.violations) == 0 && w.violated != nil {
+		select {
+		case <-w.violated:
+		default:
+			close(w.violated)
+		}
+	}
 	w.violations = append(w.violations, fmt.Sprintf(format, args...))
 }
 
@@ -303,6 +357,9 @@ func (w *world) emit(a *actionRec, n int) {
 		}
 		w.mu.Unlock()
 		a.updates <- u
+		w.mu.Lock()
+		a.sent++
+		w.mu.Unlock()
 	}
 }
 
@@ -360,6 +417,7 @@ func (w *world) Execute(ctx context.Context, filePool pool.FilePool, monitor acc
 	defer func() {
 		w.mu.Lock()
 		a.returned = true
+		a.returnedAt = w.clock.Now()
 		a.where = "returned"
 		w.active--
 		w.mu.Unlock()
@@ -439,6 +497,13 @@ const (
 // instant the scheduler receives the request.
 func (w *world) checkRequest(req *remoteworker.SynchronizeRequest) int {
 	pbi := req.PreferBeingIdle
+	snap := w.avail
+	w.avail = nil
+	if snap != nil && w.loop && !snap.at.Equal(w.clock.Now()) {
+		// Loop test: the demand was derived for a Run that starts at the
+		// instant the previous Synchronize returned; later the timer may be due.
+		snap = nil
+	}
 	if w.shutdown && !w.cleanup && !pbi {
 		w.violate("request #%d sent after shutdown began has prefer_being_idle=false (%s)", w.nSync, describeState(req))
 	}
@@ -472,6 +537,19 @@ func (w *world) checkRequest(req *remoteworker.SynchronizeRequest) int {
 		if e == nil || !proto.Equal(e.ActionDigest, a.digest) {
 			w.violate("request #%d reports %s, but the action the worker was told to run is action#%d with digest %s", w.nSync, describeState(req), a.idx, describeDigest(a.digest))
 			return repBroken
+		}
+		// Freshness / completion: what had reached the update channel before
+		// this Run got to look at it must be reflected in this report and in
+		// every later report about the same action.
+		if snap != nil && snap.a == a {
+			if snap.idx == idxCompleted && !a.completedReported {
+				w.label("demand_completed")
+			} else if snap.idx != idxCompleted && snap.idx > a.lastReported {
+				w.label("demand_newer_update")
+			}
+			if snap.idx > a.minRequired {
+				a.minRequired, a.minWhy = snap.idx, fmt.Sprintf("request #%d: %s", w.nSync, snap.why)
+			}
 		}
 		if c, ok := e.ExecutionState.(*remoteworker.CurrentState_Executing_Completed); ok {
 			if !a.started || !a.returned {
@@ -511,12 +589,48 @@ func (w *world) checkRequest(req *remoteworker.SynchronizeRequest) int {
 		if idx < a.lastReported {
 			w.violate("request #%d reports update %d of action#%d after update %d had already been reported (stale state)", w.nSync, idx, a.idx, a.lastReported)
 		}
+		if idx < a.minRequired {
+			if a.minRequired == idxCompleted {
+				w.violate("request #%d reports action#%d as still executing (%s, update %d of %d emitted), but its Execute had returned and its Completed update had reached the update channel before the worker looked at the channel: completion not reported (demanded since %s)", w.nSync, a.idx, describeState(req), idx, len(a.emitted), a.minWhy)
+			} else {
+				w.violate("request #%d reports update %d of action#%d (%s), but the newer update %d was already buffered in the update channel when the worker looked at it: stale state instead of the latest one (demanded since %s)", w.nSync, idx, a.idx, describeState(req), a.minRequired, a.minWhy)
+			}
+		}
 		a.lastReported = idx
 		return repExecuting
 	default:
 		w.violate("request #%d has an unknown worker state", w.nSync)
 		return repBroken
 	}
+}
+
+// snapshotAvail computes, with w.mu held, the lower bound described at
+// availSnap for the action the worker was last validly told to run.
+// quiescent: every goroutine is durably blocked (Run test, between steps),
+// so an Execute that has returned has also got as far as it can with sending
+// Completed. Otherwise (loop test) that is only known if bubble time has
+// advanced since Execute returned, because bubble time advances only when
+// every goroutine is durably blocked.
+func (w *world) snapshotAvail(quiescent bool) *availSnap {
+	a := w.cur
+	if a == nil || !a.started || a.updates == nil {
+		return nil
+	}
+	now := w.clock.Now()
+	n := len(a.updates)
+	if a.returned && (quiescent || a.returnedAt.Before(now)) && n < cap(a.updates) {
+		// The goroutine BuildClient spawned sends Completed right after
+		// Execute returns and then closes the channel. It is not blocked on
+		// a channel with free room, hence Completed has been delivered; it is
+		// in the buffer now or was consumed by the worker earlier.
+		return &availSnap{a: a, idx: idxCompleted, at: now, why: fmt.Sprintf("Execute had returned and %d of %d buffer slots were in use", n, cap(a.updates))}
+	}
+	if n > 0 && a.sent > 0 {
+		// The buffer is not empty, so it holds the item delivered last: at
+		// least emitted[sent-1] (or Completed, which is newer still).
+		return &availSnap{a: a, idx: a.sent - 1, at: now, why: fmt.Sprintf("%d updates buffered, %d progress sends completed", n, a.sent)}
+	}
+	return nil
 }
 
 func describeState(req *remoteworker.SynchronizeRequest) string {
@@ -569,6 +683,7 @@ func (w *world) newAction(p *actionPlan, now time.Time) *actionRec {
 		cmds:         make(chan execCmd),
 		release:      make(chan struct{}),
 		lastReported: -1,
+		minRequired:  idxStarted,
 	}
 	a.response = &remoteexecution.ExecuteResponse{
 		Result:  &remoteexecution.ActionResult{ExitCode: int32(p.Exit)},
@@ -601,7 +716,27 @@ func (w *world) Synchronize(ctx context.Context, req *remoteworker.SynchronizeRe
 		w.violate("two Synchronize calls overlap")
 	}
 	w.inSync = true
+	if w.loop && !w.cleanup {
+		// Liveness backstop: a worker that synchronises over and over without
+		// bubble time ever advancing would never reach the 24h limit of the
+		// loop test (see spinLimit).
+		if now := w.clock.Now(); now.Equal(w.spinAt) {
+			w.spinCount++
+		} else {
+			w.spinAt, w.spinCount = now, 1
+		}
+		if w.spinCount == spinLimit {
+			w.violate("the worker issued %d Synchronize calls at one instant of bubble time (request #%d: %s): it spins without waiting for an execution update or the synchronisation time, and would never terminate", spinLimit, w.nSync, describeState(req))
+		}
+	}
 	reported := w.checkRequest(req)
+	if w.loop && !w.cleanup && len(w.violations) > 0 {
+		// Stop the worker where the violation was observed, so that the test
+		// routine (which selects on w.violated) reports it.
+		w.mu.Unlock()
+		<-w.halt
+		w.mu.Lock()
+	}
 	pbi := req.PreferBeingIdle
 	var plan *replyPlan
 	switch {
@@ -620,8 +755,16 @@ func (w *world) Synchronize(ctx context.Context, req *remoteworker.SynchronizeRe
 	// unset in reply to a Completed report (InMemoryBuildQueue.completeTask
 	// always answers with the next task or with Idle; the protocol says
 	// "unset = remain in the current state", which is meaningless for a
-	// finished action). Answer like a scheduler without work instead.
-	if plan.Kind == "nil" && reported == repCompleted && !allowNilReplyToCompleted {
+	// finished action). Answer like a scheduler without work instead, unless
+	// the plan carries the drawn permission NilToCompleted: then the reply
+	// goes out as drawn. BuildClient takes it as "continue as is": it clears
+	// its may-think-executing bound, reports may-terminate, keeps the
+	// Completed state and reports it again (same response object) on every
+	// later Run until a valid execute/idle reply arrives. All request and
+	// executor oracles apply to that continuation; only the one-minute branch
+	// of the may-terminate oracle is switched off until the next valid
+	// execute/idle reply (nilToCompletedTaint, observation O1 below).
+	if plan.Kind == "nil" && reported == repCompleted && !allowNilReplyToCompleted && !plan.NilToCompleted {
 		w.excluded["desired_state unset in reply to a Completed report (no scheduler does this); replied idle instead"]++
 		q := *plan
 		q.Kind = "idle"
@@ -664,6 +807,9 @@ func (w *world) Synchronize(ctx context.Context, req *remoteworker.SynchronizeRe
 	}
 	w.lastReplyKind = kind
 	w.lastReplyValid = false
+	if w.loop {
+		w.avail = nil
+	}
 	if kind == "rpcerr" {
 		// The request may have been processed and an execute reply lost.
 		w.mayBelieveExec = true
@@ -720,6 +866,7 @@ func (w *world) Synchronize(ctx context.Context, req *remoteworker.SynchronizeRe
 			}
 			w.cur = a
 			w.refSync = resp.NextSynchronizationAt.AsTime()
+			w.nilToCompletedTaint = false
 			w.label("reply_exec")
 		}
 	case "idle":
@@ -731,6 +878,7 @@ func (w *world) Synchronize(ctx context.Context, req *remoteworker.SynchronizeRe
 			}
 			w.cur = nil
 			w.refSync = resp.NextSynchronizationAt.AsTime()
+			w.nilToCompletedTaint = false
 			w.label("reply_idle")
 		}
 	case "nil":
@@ -741,6 +889,14 @@ func (w *world) Synchronize(ctx context.Context, req *remoteworker.SynchronizeRe
 			w.label("reply_no_desired_state")
 			if reported == repCompleted {
 				w.label("reply_no_desired_state_to_completed")
+				if !allowNilReplyToCompleted {
+					w.nilToCompletedTaint = true
+				}
+			}
+			if w.loop && reported == repExecuting && plan.OffNs > 0 {
+				// Loop test: LaunchWorkerThread calls Run again at this very
+				// instant, with a synchronisation timer that is not yet due.
+				w.avail = w.snapshotAvail(false)
 			}
 		}
 	default:
@@ -762,6 +918,12 @@ func (w *world) Synchronize(ctx context.Context, req *remoteworker.SynchronizeRe
 // Unreachable with replies a scheduler actually sends.
 var allowNilReplyToCompleted = os.Getenv("VERIF_C08_NIL_TO_COMPLETED") == "1"
 
+// spinLimit: Synchronize calls at one instant of bubble time (loop test)
+// beyond which the worker is declared livelocked. The unchanged loop issues
+// at most one call per scripted zero-latency reply (<= 12) plus one per batch
+// of execution updates (<= 14 + 23 + 1 per action) at one instant.
+const spinLimit = 3000
+
 // mayTerminateAllowed is the shutdown oracle: under a cancelled context the
 // worker may be let go only if the scheduler cannot believe it is executing
 // (the last reply it delivered left the worker idle), or - as documented at
@@ -770,6 +932,12 @@ var allowNilReplyToCompleted = os.Getenv("VERIF_C08_NIL_TO_COMPLETED") == "1"
 func (w *world) mayTerminateAllowed(now time.Time) (bool, string) {
 	if !w.mayBelieveExec {
 		return true, "scheduler_believes_idle"
+	}
+	if w.nilToCompletedTaint {
+		// Observation O1 (see allowNilReplyToCompleted): after the reply that
+		// no scheduler sends, the worker derives its one-minute bound from a
+		// synchronisation time it lowered itself. Not judged.
+		return true, "unjudged_after_no_desired_state_to_completed"
 	}
 	if now.After(w.refSync.Add(time.Minute)) {
 		return true, "next_sync_missed_by_more_than_a_minute"
